@@ -327,6 +327,9 @@ func selArgs(r *rng.Rand, keys []string) (args []any, desc string, set map[strin
 }
 
 func (c16) RunCase(c *core.Ctx) {
+	if c.Case%97 == 23 && !w10(c, "C16") {
+		return
+	}
 	r := c.R
 	h := &c16Run{r: r, tests: map[int]z.Test{}, posts: map[int]z.PostTransform{}, failID: map[int]bool{}, paths: map[int]string{}}
 	var log []string
